@@ -35,6 +35,9 @@ def labels(n, kind):
         return [chr(ord("a") + i) for i in range(n)]
     if kind == "int":
         return [10 * (i + 1) for i in range(n)]
+    if kind == "zero":
+        # includes falsy labels (0) away from the first position
+        return [i - 1 for i in range(n)]
     # given order differs from sorted order
     pool = ["m", "b", "z", "a", "q", "c", "y", "d", "x", "e", "w", "f", "v", "g"]
     return pool[:n]
@@ -122,6 +125,19 @@ def check_cell(case) -> Outcome:
             out.fail("drop-field-none-when-reduced", f"{spec}", **feat)
         if c.get_spans_intercept(levels, reduced_rank=True) or not c.get_spans_intercept(levels, reduced_rank=False):
             out.fail("spans-intercept-flags", f"{spec} n={n}", **feat)
+    # the same contrast instance applied to a second level list of the same length (rotated): results must
+    # depend on the levels given, not on an earlier call
+    if n >= 2:
+        rot = levels[1:] + levels[:1]
+        A2 = dense(c.get_coding_matrix(rot, reduced_rank=True, sparse=sparse)).reshape(n, -1)
+        R2 = RC.coding(spec, n, rot)
+        if A2.shape != R2.shape or not np.allclose(A2, R2, atol=tol):
+            out.fail("instance-reuse-second-level-list", f"{spec} n={n}: after coding {levels}, coding for {rot} is\n{A2}\nexpected\n{R2}", **feat)
+        if list(c.get_coding_column_names(rot, reduced_rank=True)) != RC.column_names(spec, rot):
+            out.fail("instance-reuse-second-level-list", f"{spec} n={n}: names for {rot}", **feat)
+        K2 = dense(c.get_coefficient_matrix(rot, reduced_rank=True, sparse=sparse)).reshape(n, n)
+        if np.linalg.matrix_rank(np.hstack([np.ones((n, 1)), R2])) == n and not np.allclose(K2 @ np.hstack([np.ones((n, 1)), R2]), np.eye(n), atol=1e-8):
+            out.fail("instance-reuse-second-level-list", f"{spec} n={n}: coefficient matrix for {rot}", **feat)
     st_ = ContrastsState(c, levels)
     if not np.allclose(dense(st_.get_coding_matrix(True, sparse)).reshape(n, -1), A, atol=0):
         out.fail("state-coding-matrix", f"{spec} n={n}", **feat)
@@ -131,7 +147,7 @@ def check_cell(case) -> Outcome:
 def grid(nmax):
     def gen():
         for n in range(1, nmax + 1):
-            for lk in ("str", "int", "mixed"):
+            for lk in ("str", "int", "mixed", "zero"):
                 for spec in specs_for(n, labels(n, lk)):
                     if spec["kind"] in ("helmert", "diff", "sum") and lk != "str" and n > 6:
                         continue  # label kind is irrelevant to these matrices; keep the grid small
@@ -235,7 +251,7 @@ def gen_encode(nmax):
     @st.composite
     def strat(draw):
         n = draw(st.integers(1, nmax))
-        lk = draw(st.sampled_from(["str", "int", "mixed"]))
+        lk = draw(st.sampled_from(["str", "int", "mixed", "zero"]))
         kind = draw(st.sampled_from(["treatment", "SAS", "sum", "helmert", "diff", "poly"]))
         spec = {"kind": kind}
         if kind in ("treatment", "SAS") and draw(st.booleans()):
